@@ -471,4 +471,356 @@ theorem childInit_core {t : Tab} (hw : t.WF) (hc : AllCx t) (pipes : List Int) (
         | none => rfl
         | some e => simp [c2 fd e hx]
 
+/-! ### uv__wait_children over histories -/
+
+def isReaped : WaitRes → Bool
+  | .reaped _ => true
+  | _ => false
+
+/-- entries for child `id` in a pending list -/
+def pcnt (p : List (Nat × Nat)) (id : Nat) : Nat := (p.filter (fun x => x.1 == id)).length
+
+theorem pollAll_fst (res : Nat → WaitRes) (l : List Nat) :
+    (pollAll res l).1 = l.filter (fun c => !isReaped (res c)) := by
+  induction l with
+  | nil => rfl
+  | cons c rest ih =>
+    simp only [pollAll, List.filter_cons]
+    cases h : res c <;> simp [isReaped, ih]
+
+theorem pollAll_mem (res : Nat → WaitRes) (l : List Nat) (c st : Nat) :
+    (c, st) ∈ (pollAll res l).2 ↔ c ∈ l ∧ res c = .reaped st := by
+  induction l with
+  | nil => simp [pollAll]
+  | cons a rest ih =>
+    simp only [pollAll]
+    cases h : res a with
+    | running =>
+      simp only [ih, List.mem_cons]
+      constructor
+      · intro ⟨h1, h2⟩; exact ⟨Or.inr h1, h2⟩
+      · intro ⟨h1, h2⟩
+        rcases h1 with h1 | h1
+        · subst h1; rw [h] at h2; cases h2
+        · exact ⟨h1, h2⟩
+    | echild =>
+      simp only [ih, List.mem_cons]
+      constructor
+      · intro ⟨h1, h2⟩; exact ⟨Or.inr h1, h2⟩
+      · intro ⟨h1, h2⟩
+        rcases h1 with h1 | h1
+        · subst h1; rw [h] at h2; cases h2
+        · exact ⟨h1, h2⟩
+    | reaped s0 =>
+      simp only [List.mem_cons, ih, Prod.mk.injEq]
+      constructor
+      · intro h1
+        rcases h1 with ⟨h1, h2⟩ | ⟨h1, h2⟩
+        · subst h1; subst h2; exact ⟨Or.inl rfl, h⟩
+        · exact ⟨Or.inr h1, h2⟩
+      · intro ⟨h1, h2⟩
+        rcases h1 with h1 | h1
+        · subst h1; rw [h] at h2; cases h2; exact Or.inl ⟨rfl, rfl⟩
+        · exact Or.inr ⟨h1, h2⟩
+
+theorem pcnt_cons (a st id : Nat) (p : List (Nat × Nat)) :
+    pcnt ((a, st) :: p) id = (if a = id then 1 else 0) + pcnt p id := by
+  by_cases h : a = id
+  · simp [pcnt, List.filter_cons, h]; omega
+  · simp [pcnt, List.filter_cons, h]
+
+theorem pcnt_notin (res : Nat → WaitRes) (l : List Nat) (id : Nat) (h : id ∉ l) :
+    pcnt (pollAll res l).2 id = 0 := by
+  induction l with
+  | nil => rfl
+  | cons a rest ih =>
+    have ha : a ≠ id := fun e => h (by simp [e])
+    have hr : id ∉ rest := fun e => h (by simp [e])
+    have h0 := ih hr
+    simp only [pollAll]
+    cases hres : res a with
+    | running => exact h0
+    | echild => exact h0
+    | reaped st => simp only []; rw [pcnt_cons, h0]; simp [ha]
+
+theorem pcnt_nodup (res : Nat → WaitRes) (l : List Nat) (id : Nat) (hn : l.Nodup) (h : id ∈ l) :
+    pcnt (pollAll res l).2 id = if isReaped (res id) then 1 else 0 := by
+  induction l with
+  | nil => cases h
+  | cons a rest ih =>
+    have hn' := List.nodup_cons.mp hn
+    by_cases ha : a = id
+    · subst ha
+      have h0 := pcnt_notin res rest a hn'.1
+      simp only [pollAll]
+      cases hres : res a with
+      | running => simp only [isReaped]; exact h0
+      | echild => simp only [isReaped]; exact h0
+      | reaped st => simp only [isReaped]; rw [pcnt_cons, h0]; simp
+    · have hr : id ∈ rest := by
+        rcases List.mem_cons.mp h with h | h
+        · exact absurd h.symm ha
+        · exact h
+      have h0 := ih hn'.2 hr
+      simp only [pollAll]
+      cases hres : res a with
+      | running => exact h0
+      | echild => exact h0
+      | reaped st => simp only []; rw [pcnt_cons, h0]; simp [ha]
+
+theorem waitCount_append (a b : List Log) (id : Nat) :
+    waitCount (a ++ b) id = waitCount a id + waitCount b id := by
+  simp [waitCount, List.filter_append]
+theorem cbCount_append (a b : List Log) (id : Nat) :
+    cbCount (a ++ b) id = cbCount a id + cbCount b id := by
+  simp [cbCount, List.filter_append]
+
+theorem waitCount_waited (p : List (Nat × Nat)) (id : Nat) :
+    waitCount (p.map fun x => Log.waited x.1 x.2) id = pcnt p id := by
+  induction p with
+  | nil => rfl
+  | cons a rest ih =>
+    simp only [waitCount, pcnt, List.map_cons, List.filter_cons, Log.isWaited] at ih ⊢
+    by_cases h : a.1 == id <;> simp [h, ih]
+theorem cbCount_waited (p : List (Nat × Nat)) (id : Nat) :
+    cbCount (p.map fun x => Log.waited x.1 x.2) id = 0 := by
+  induction p with
+  | nil => rfl
+  | cons a rest ih =>
+    simp only [cbCount, List.map_cons, List.filter_cons, Log.isCb] at ih ⊢
+    simpa using ih
+theorem waitCount_cb (p : List (Nat × Nat)) (id : Nat) :
+    waitCount ((report p).map Log.cb) id = 0 := by
+  induction p with
+  | nil => rfl
+  | cons a rest ih =>
+    simp only [waitCount, report, List.map_cons, List.filter_cons, Log.isWaited] at ih ⊢
+    simpa using ih
+theorem cbCount_cb (p : List (Nat × Nat)) (id : Nat) :
+    cbCount ((report p).map Log.cb) id = pcnt p id := by
+  unfold cbCount pcnt report
+  rw [List.map_map, List.filter_map, List.length_map]
+  rfl
+
+/-- invariant of every reachable loop/kernel state -/
+structure Inv (s : PS) : Prop where
+  nodup : s.tracked.Nodup
+  lt : ∀ id, id ∈ s.tracked → id < s.nspawned
+  alive : ∀ id, id ∈ s.tracked → s.kern id ≠ .gone
+  cnt0 : ∀ id, id ∈ s.tracked → waitCount s.log id = 0
+  fresh : ∀ id, s.nspawned ≤ id → waitCount s.log id = 0
+  cbw : ∀ id, cbCount s.log id = waitCount s.log id
+  once : ∀ id, waitCount s.log id ≤ 1
+  truth : ∀ id st, Log.waited id st ∈ s.log → (id, st) ∈ s.exits
+  dec : ∀ e, Log.cb e ∈ s.log → ∃ st, Log.waited e.id st ∈ s.log ∧
+          e.exitStatus = (decode st).1 ∧ e.termSignal = (decode st).2
+  zomb : ∀ id st, s.kern id = .zombie st → (id, st) ∈ s.exits
+  okT : ∀ id, id ∈ s.tracked → id ∈ s.okIds
+  okW : ∀ id st, Log.waited id st ∈ s.log → id ∈ s.okIds
+  okLt : ∀ id, id ∈ s.okIds → id < s.nspawned
+
+theorem inv_init : Inv {} := by
+  constructor <;> simp [waitCount, cbCount]
+
+theorem kernWait_reaped {s : PS} {id st : Nat} : kernWait s id = .reaped st ↔ s.kern id = .zombie st := by
+  unfold kernWait
+  cases h : s.kern id <;> simp
+
+theorem inv_sigchld {s : PS} (h : Inv s) : Inv (stepP s .sigchld) := by
+  have hfst := pollAll_fst (kernWait s) s.tracked
+  have hmem := pollAll_mem (kernWait s) s.tracked
+  have hpend : ∀ i, (pollAll (kernWait s) s.tracked).2.any (·.1 == i) = true ↔
+      ∃ st, i ∈ s.tracked ∧ s.kern i = .zombie st := by
+    intro i
+    simp only [List.any_eq_true]
+    constructor
+    · rintro ⟨⟨c, st⟩, hx, hc⟩
+      have : c = i := by simpa using hc
+      subst this
+      exact ⟨st, ((hmem c st).mp hx).1, kernWait_reaped.mp ((hmem c st).mp hx).2⟩
+    · rintro ⟨st, h1, h2⟩
+      exact ⟨(i, st), (hmem i st).mpr ⟨h1, kernWait_reaped.mpr h2⟩, by simp⟩
+  have hmemT : ∀ id, id ∈ (pollAll (kernWait s) s.tracked).1 ↔ id ∈ s.tracked ∧ isReaped (kernWait s id) = false := by
+    intro id; rw [hfst]; simp
+  have hwc : ∀ id, waitCount (stepP s .sigchld).log id = waitCount s.log id + pcnt (pollAll (kernWait s) s.tracked).2 id := by
+    intro id
+    simp only [stepP, waitCount_append, waitCount_waited, waitCount_cb]; omega
+  have hcc : ∀ id, cbCount (stepP s .sigchld).log id = cbCount s.log id + pcnt (pollAll (kernWait s) s.tracked).2 id := by
+    intro id
+    simp only [stepP, cbCount_append, cbCount_waited, cbCount_cb]; omega
+  have hlog : ∀ x, x ∈ (stepP s .sigchld).log ↔ x ∈ s.log ∨
+      (∃ c st, (c, st) ∈ (pollAll (kernWait s) s.tracked).2 ∧ x = Log.waited c st) ∨
+      (∃ c st, (c, st) ∈ (pollAll (kernWait s) s.tracked).2 ∧ x = Log.cb ⟨c, (decode st).1, (decode st).2⟩) := by
+    intro x
+    simp only [stepP, List.mem_append, List.mem_map, report, Prod.exists, or_assoc]
+    constructor
+    · rintro (h1 | ⟨a, b, h1, h2⟩ | ⟨e, ⟨a, b, h1, h2⟩, h3⟩)
+      · exact Or.inl h1
+      · exact Or.inr (Or.inl ⟨a, b, h1, h2.symm⟩)
+      · exact Or.inr (Or.inr ⟨a, b, h1, by rw [← h3, ← h2]⟩)
+    · rintro (h1 | ⟨a, b, h1, h2⟩ | ⟨a, b, h1, h2⟩)
+      · exact Or.inl h1
+      · exact Or.inr (Or.inl ⟨a, b, h1, h2.symm⟩)
+      · exact Or.inr (Or.inr ⟨_, ⟨a, b, h1, rfl⟩, h2.symm⟩)
+  constructor
+  · show (pollAll (kernWait s) s.tracked).1.Nodup
+    rw [hfst]; exact List.Pairwise.filter _ h.nodup
+  · intro id hid; exact h.lt id ((hmemT id).mp hid).1
+  · intro id hid
+    obtain ⟨h1, h2⟩ := (hmemT id).mp hid
+    show (if (pollAll (kernWait s) s.tracked).2.any (·.1 == id) then KState.gone else s.kern id) ≠ .gone
+    have : ¬ (pollAll (kernWait s) s.tracked).2.any (·.1 == id) = true := by
+      rw [hpend]; rintro ⟨st, _, hz⟩
+      rw [kernWait_reaped.mpr hz] at h2; simp [isReaped] at h2
+    simp only [this]; exact h.alive id h1
+  · intro id hid
+    obtain ⟨h1, h2⟩ := (hmemT id).mp hid
+    rw [hwc, h.cnt0 id h1, pcnt_nodup _ _ _ h.nodup h1, h2]; rfl
+  · intro id hid
+    have hn : id ∉ s.tracked := fun hm => by have := h.lt id hm; simp [stepP] at hid; omega
+    rw [hwc, pcnt_notin _ _ _ hn, h.fresh id (by simpa [stepP] using hid)]
+  · intro id; rw [hwc, hcc, h.cbw]
+  · intro id
+    rw [hwc]
+    by_cases hm : id ∈ s.tracked
+    · rw [h.cnt0 id hm, pcnt_nodup _ _ _ h.nodup hm]; split <;> omega
+    · rw [pcnt_notin _ _ _ hm]; have := h.once id; omega
+  · intro id st hx
+    show (id, st) ∈ s.exits
+    rcases (hlog _).mp hx with h1 | ⟨c, st', h1, h2⟩ | ⟨c, st', h1, h2⟩
+    · exact h.truth id st h1
+    · cases h2; exact h.zomb _ _ (kernWait_reaped.mp ((hmem _ _).mp h1).2)
+    · cases h2
+  · intro e hx
+    rcases (hlog _).mp hx with h1 | ⟨c, st', h1, h2⟩ | ⟨c, st', h1, h2⟩
+    · obtain ⟨st, h2, h3⟩ := h.dec e h1
+      exact ⟨st, (hlog _).mpr (Or.inl h2), h3⟩
+    · cases h2
+    · cases h2
+      exact ⟨st', (hlog _).mpr (Or.inr (Or.inl ⟨c, st', h1, rfl⟩)), rfl, rfl⟩
+  · intro id st hz
+    show (id, st) ∈ s.exits
+    have hz' : (if (pollAll (kernWait s) s.tracked).2.any (·.1 == id) then KState.gone else s.kern id) = .zombie st := hz
+    split at hz'
+    · cases hz'
+    · exact h.zomb id st hz'
+  · intro id hid; exact h.okT id ((hmemT id).mp hid).1
+  · intro id st hx
+    show id ∈ s.okIds
+    rcases (hlog _).mp hx with h1 | ⟨c, st', h1, h2⟩ | ⟨c, st', h1, h2⟩
+    · exact h.okW id st h1
+    · cases h2; exact h.okT _ ((hmem _ _).mp h1).1
+    · cases h2
+  · exact h.okLt
+
+theorem inv_step {s : PS} (h : Inv s) (op : Op) : Inv (stepP s op) := by
+  cases op with
+  | sigchld => exact inv_sigchld h
+  | spawnOk =>
+    have hnew : s.nspawned ∉ s.tracked := fun hm => by have := h.lt _ hm; omega
+    constructor
+    · show (s.tracked ++ [s.nspawned]).Nodup
+      rw [List.nodup_append]
+      refine ⟨h.nodup, by simp, ?_⟩
+      intro a ha b hb; simp at hb; subst hb; intro e; subst e; exact hnew ha
+    · intro id hid
+      simp only [stepP, List.mem_append, List.mem_singleton] at hid ⊢
+      rcases hid with hid | hid
+      · have := h.lt id hid; omega
+      · omega
+    · intro id hid
+      simp only [stepP, List.mem_append, List.mem_singleton] at hid ⊢
+      by_cases he : id = s.nspawned
+      · simp [he]
+      · simp only [he, if_false]; exact h.alive id (by simpa [he] using hid)
+    · intro id hid
+      simp only [stepP, List.mem_append, List.mem_singleton] at hid ⊢
+      rcases hid with hid | hid
+      · exact h.cnt0 id hid
+      · exact h.fresh id (by omega)
+    · intro id hid; exact h.fresh id (by simp [stepP] at hid; omega)
+    · exact h.cbw
+    · exact h.once
+    · exact h.truth
+    · exact h.dec
+    · intro id st hz
+      simp only [stepP] at hz ⊢
+      split at hz
+      · cases hz
+      · exact h.zomb id st hz
+    · intro id hid
+      simp only [stepP, List.mem_append, List.mem_singleton] at hid ⊢
+      rcases hid with hid | hid
+      · exact Or.inl (h.okT id hid)
+      · exact Or.inr hid
+    · intro id st hx; simp only [stepP, List.mem_append]; exact Or.inl (h.okW id st hx)
+    · intro id hid
+      simp only [stepP, List.mem_append, List.mem_singleton] at hid ⊢
+      rcases hid with hid | hid
+      · have := h.okLt id hid; omega
+      · omega
+  | spawnFail =>
+    constructor
+    · exact h.nodup
+    · intro id hid; have := h.lt id hid; simp only [stepP]; omega
+    · exact h.alive
+    · exact h.cnt0
+    · intro id hid; exact h.fresh id (by simp [stepP] at hid; omega)
+    · exact h.cbw
+    · exact h.once
+    · exact h.truth
+    · exact h.dec
+    · exact h.zomb
+    · exact h.okT
+    · exact h.okW
+    · intro id hid; have := h.okLt id hid; simp only [stepP]; omega
+  | childExit c st0 =>
+    by_cases hr : s.kern c = .running
+    · constructor
+      · simpa [stepP, hr] using h.nodup
+      · simpa [stepP, hr] using h.lt
+      · intro id hid
+        simp only [stepP, hr, if_true] at hid ⊢
+        by_cases he : id = c
+        · simp [he]
+        · simp only [he, if_false]; exact h.alive id hid
+      · simpa [stepP, hr] using h.cnt0
+      · simpa [stepP, hr] using h.fresh
+      · simpa [stepP, hr] using h.cbw
+      · simpa [stepP, hr] using h.once
+      · intro id st hx
+        simp only [stepP, hr, if_true, List.mem_append] at hx ⊢
+        exact Or.inl (h.truth id st hx)
+      · simpa [stepP, hr] using h.dec
+      · intro id st hz
+        simp only [stepP, hr, if_true, List.mem_append, List.mem_singleton] at hz ⊢
+        by_cases he : id = c
+        · simp only [he, if_true] at hz; cases hz; exact Or.inr (by rw [he])
+        · simp only [he, if_false] at hz; exact Or.inl (h.zomb id st hz)
+      · simpa [stepP, hr] using h.okT
+      · simpa [stepP, hr] using h.okW
+      · simpa [stepP, hr] using h.okLt
+    · simpa [stepP, hr] using h
+  | closeHandle c =>
+    have hsub : ∀ id, id ∈ s.tracked.filter (· ≠ c) → id ∈ s.tracked := fun id hid => (List.mem_filter.mp hid).1
+    constructor
+    · exact List.Pairwise.filter _ h.nodup
+    · intro id hid; exact h.lt id (hsub id hid)
+    · intro id hid; exact h.alive id (hsub id hid)
+    · intro id hid; exact h.cnt0 id (hsub id hid)
+    · exact h.fresh
+    · exact h.cbw
+    · exact h.once
+    · exact h.truth
+    · exact h.dec
+    · exact h.zomb
+    · intro id hid; exact h.okT id (hsub id hid)
+    · exact h.okW
+    · exact h.okLt
+
+theorem inv_run {s : PS} (h : Inv s) (ops : List Op) : Inv (runP s ops) := by
+  induction ops generalizing s with
+  | nil => exact h
+  | cons op rest ih => exact ih (inv_step h op)
+
 end UvModel.ProcFd
